@@ -171,7 +171,21 @@ def tag_check_in_loader(db, f, rep):
                 l, r = strip(c["lhs"]), strip(c["rhs"])
                 for a, b in ((l, r), (r, l)):
                     if ((var is not None and a["k"] == "DeclRefExpr" and a.get("d") == var) or a is first_load) and const_value(b) is not None:
-                        return {"value": const_value(b), "name": strip(b).get("n", str(const_value(b))), "if": n,
+                        return {"value": const_value(b), "name": strip(b).get("n", str(const_value(b))), "if": n, "reject": n["then"], "pol": False,
+                                "cond": c, "var": var, "load": first_load, "narrow": _tag_narrowed(f, first_load, var)}
+            # the accepting spelling:  if (tag == T) { ... load ... } else return NULL;   (or: ... } return NULL;)
+            c = strip(n["cond"])
+            if c["k"] == "BinaryOperator" and c["op"] == "==":
+                l, r = strip(c["lhs"]), strip(c["rhs"])
+                for a, b in ((l, r), (r, l)):
+                    if ((var is not None and a["k"] == "DeclRefExpr" and a.get("d") == var) or a is first_load) and const_value(b) is not None:
+                        rej = n.get("else")
+                        if rej is None:
+                            par = f.parent(n)
+                            sib = par.get("c", []) if par is not None and par["k"] == "CompoundStmt" else []
+                            idx = next((i for i, x in enumerate(sib) if x is n), -1)
+                            rej = {"k": "CompoundStmt", "id": -n["id"], "c": sib[idx + 1:]} if idx >= 0 else None
+                        return {"value": const_value(b), "name": strip(b).get("n", str(const_value(b))), "if": n, "reject": rej, "pol": True,
                                 "cond": c, "var": var, "load": first_load, "narrow": _tag_narrowed(f, first_load, var)}
     return None
 
@@ -257,7 +271,7 @@ def r_tags(db, rep):
                          ld.qn, tc["narrow"][0], tc["narrow"][1]), ld.qn)
         # the rejecting branch returns NULL
         rep.ob()
-        rets = [n for n in walk(tc["if"]["then"]) if n["k"] == "ReturnStmt"]
+        rets = [n for n in walk(tc["reject"]) if n["k"] == "ReturnStmt"] if tc.get("reject") is not None else []
         if not rets or any(const_value(r.get("value")) != 0 for r in rets):
             rep.viol(k + "::load#reject", ld.nloc(tc["if"]), "%s: tag mismatch does not return NULL" % ld.qn, ld.qn)
         # nothing is allocated / no other stream read happens unless the tag matched
@@ -273,7 +287,7 @@ def r_tags(db, rep):
             rep.ob()
             pos = cfg.position(n)
             doms = cfg.guards(n)
-            if not any(c is not None and strip(c) is tc["cond"] and pol is False for c, pol in doms):
+            if not any(c is not None and strip(c) is tc["cond"] and pol is tc["pol"] for c, pol in doms):
                 rep.viol(k + "::load#early:" + (n.get("fn") or "new"), ld.nloc(n),
                          "%s: %s happens on a path where the tag has not been checked against %s" % (
                              ld.qn, "allocation" if is_alloc else "stream read " + n.get("fn", ""), tc["name"]), ld.qn)
